@@ -257,10 +257,8 @@ def load(f, **options):  # type: (typing.IO, **typing.Any) -> canmatrix.CanMatri
                 factor = float_factory(factor)
                 offset = float_factory(offset)
 
-                if len(temp_array) > 12:
-                    receiver = temp_array[12].split(',')
-                else:
-                    receiver = []
+                # the receivers are the remaining comma separated fields (the line is already split on ',')
+                receiver = [r.strip() for r in temp_array[12:] if r.strip()]
 
                 if multiplex == 'M':
                     multiplex = 'Multiplexor'
